@@ -15,6 +15,7 @@ mod ops;
 #[cfg(feature = "auto")]
 mod policy;
 mod seeds;
+mod threads;
 mod world;
 
 use std::collections::HashMap;
@@ -408,6 +409,50 @@ fn main() {
                 ("wall_s", J::n(t0.elapsed().as_secs_f64())),
             ]);
             emit(&m, &out, vs.is_empty());
+        },
+        "interleave" => {
+            let t0 = std::time::Instant::now();
+            let getf = |k: &str, d: f64| -> f64 { m.get(k).map_or(d, |v| v.parse().expect("bad number")) };
+            let thorough = m.contains_key("thorough");
+            let r = threads::interleave(getf("max-threads", 8.0) as usize, getf("pair-len", 4.0) as usize, getf("triple-len", 2.0) as usize, thorough);
+            let found: Vec<J> = r.found.iter().take(5).map(|(d, vs)| J::obj(vec![("history", J::s("")), ("history_pretty", J::s(d)), ("epilogue", J::s("")), ("epilogue_pretty", J::s("")), ("violations", J::Arr(vs.iter().map(viol_json).collect()))])).collect();
+            let out = J::obj(vec![
+                ("lens", J::s("interleave")),
+                ("build", J::s(&build_cfg_name())),
+                ("states", J::n(r.distinct_outcomes as f64)),
+                ("transitions", J::n(r.steps as f64)),
+                ("executions", J::n(r.schedules as f64)),
+                ("max_depth_completed", J::n(0.0)),
+                ("fixpoint", J::Bool(false)),
+                ("cut_reason", J::s("all interleavings at API-call granularity of every program pair (and selected triples); 4+ threads: round-robin schedules and their rotations only")),
+                ("samples", J::Arr(r.samples.iter().map(|s| J::s(s)).collect())),
+                ("vacuity", J::obj(vec![("schedules", J::n(r.schedules as f64)), ("program_tuples", J::n(r.tuples as f64)), ("steps", J::n(r.steps as f64)), ("distinct_thread_states", J::n(r.distinct_outcomes as f64))])),
+                ("machinery_errors", J::Arr(vec![])),
+                ("found", J::Arr(found)),
+                ("lens_args", J::s(&std::env::args().skip(1).collect::<Vec<_>>().join(" "))),
+                ("wall_s", J::n(t0.elapsed().as_secs_f64())),
+            ]);
+            emit(&m, &out, r.found.is_empty());
+        },
+        "teardown" => {
+            // One scenario per process: exit status and the report line are the verdict
+            let get = |k: &str| -> u32 { m.get(k).map_or(0, |v| v.parse().expect("bad number")) };
+            let (order, kind, tlsc, on_main) = (get("order"), get("kind"), get("tls-collects") != 0, get("main") != 0);
+            #[cfg(feature = "auto")]
+            let _ = ();
+            if on_main {
+                threads::teardown::scenario(order, kind, tlsc);
+                println!("TEARDOWN main {}", threads::teardown::report());
+                // thread-local destructors of the main thread run after this point
+            } else {
+                let h = std::thread::spawn(move || threads::teardown::scenario(order, kind, tlsc));
+                let ok = h.join().is_ok();
+                println!("TEARDOWN spawned joined={} {}", ok, threads::teardown::report());
+                if !ok {
+                    std::process::exit(3);
+                }
+            }
+            std::process::exit(0);
         },
         "probes" => {
             let t0 = std::time::Instant::now();
